@@ -81,6 +81,37 @@ int main(int argc, char **argv)
       total += done.load();
       if (mismatches.load() > 0) printf("VALUE-MISMATCH round=%d count=%llu world=%s\n", round, static_cast<unsigned long long>(mismatches.load()), o.spherical ? "spherical" : "cartesian");
     }
+  // worlds with random models, one world per thread (nothing is shared by construction): every thread's answers must equal those of a world queried alone
+  for (int sph = 0; sph < 2; ++sph)
+    {
+      worlds::Opt o; o.spherical = sph; o.random_models = true; o.cross_section = true;
+      const std::string text = worlds::rich(o);
+      const auto probes = worlds::lattice(o.spherical);
+      const kit::Request rq = {{{3,1,4}},{{2,3,0}},{{3,0,2}},{{1,0,0}}};
+      std::vector<std::vector<double>> ref;
+      {
+        auto wr = kit::make_world(text, 7, "ownref");
+        for (int q = 0; q < nq / 4; ++q) { const auto &pr = probes[(static_cast<size_t>(q) * 7) % probes.size()]; ref.push_back(wr->properties(wbgen::query_point(o.spherical, pr.x, pr.y, pr.depth), pr.depth, rq)); }
+      }
+      std::atomic<int> ready{0};
+      std::atomic<unsigned long long> mismatches{0};
+      std::vector<std::thread> th;
+      for (int t = 0; t < nthreads; ++t)
+        th.emplace_back([&, t]()
+        {
+          auto w = kit::make_world(text, 7, "own" + std::to_string(t));
+          ready.fetch_add(1);
+          while (ready.load() < nthreads) {}
+          for (int q = 0; q < nq / 4; ++q)
+            {
+              const auto &pr = probes[(static_cast<size_t>(q) * 7) % probes.size()];
+              if (!kit::biteq(w->properties(wbgen::query_point(o.spherical, pr.x, pr.y, pr.depth), pr.depth, rq), ref[static_cast<size_t>(q)])) mismatches.fetch_add(1);
+            }
+        });
+      for (auto &x : th) x.join();
+      total += static_cast<unsigned long long>(nthreads) * static_cast<unsigned long long>(nq / 4);
+      if (mismatches.load() > 0) printf("VALUE-MISMATCH own-worlds count=%llu world=%s\n", static_cast<unsigned long long>(mismatches.load()), o.spherical ? "spherical" : "cartesian");
+    }
   printf("tsan-pass rounds=%d threads=%d queries=%llu\n", rounds, nthreads, total);
   return 0;
 }
